@@ -441,24 +441,12 @@ def stepStrptime (o : Oracle) (t : Thread) (st : MStore) (memo : Memo) : Res × 
         match o.timeParse layout ts with
         | some tm => (Res.next { t with stack := rest', time := tm } st, memoAdd (layout, ts) tm memo)
         | none => (Res.err .timeParseFailed st, memo)
-    match rest with
-    | [] => (.fault .stackUnderflow st, memo)
-    | .str s :: rest' => withTs s rest'
-    | .int g :: rest' =>
-      (match popInt o st t.dead rest' with
-       | .bad f => (.fault f st, memo)
-       | .conv => (.err .convFailed st, memo)
-       | .ok re rest'' =>
-         if re < 0 ∨ re ≥ 2147483647 then (.fault .badIndex st, memo)
-         else
-           match lookupCaps t.caps re.toNat with
-           | some groups =>
-             if g < 0 then (.fault .badIndex st, memo)
-             else (match groups[g.toNat]? with
-                   | some s => withTs s rest''
-                   | none => (.fault .badIndex st, memo))
-           | none => (.fault .badIndex st, memo))
-    | _ :: rest' => withTs [] rest'
+    -- the time string is popped like any string operand (`PopString`): an integer, float or
+    -- boolean value is rendered as text first
+    match popString o st t.dead rest with
+    | .bad f => (.fault f st, memo)
+    | .conv => (.err .convFailed st, memo)
+    | .ok ts rest' => withTs ts rest'
 
 /-- every instruction except `Strptime` (`pc` has already been advanced) -/
 def stepCore (o : Oracle) (p : Prog) (inp : Input) (i : Instr) (t : Thread) (st : MStore) : Res :=
